@@ -114,8 +114,18 @@ def _is_lazy_fill(q: str, ef: Effect) -> bool:
         return False
     guard = tm.call(tm.glob("builtins.hasattr"),
                     (ef.target, tm.const(attr)), ())
-    return tm.fold(ef.event.live,
-                   lambda a: True if a is guard else None) is False
+    held = tm.attr(ef.target, attr)
+
+    def materialised(a: T):
+        # `hasattr(self, "_x")` or, with a None sentinel, `self._x is not
+        # None`: the fill must be unreachable once the view exists
+        if a is guard:
+            return True
+        if a.op == "cmp" and a.args[0] in ("Is", "IsNot") and \
+                a.args[1] is held and a.args[2] is tm.NONE:
+            return a.args[0] == "IsNot"
+        return None
+    return tm.fold(ef.event.live, materialised) is False
 
 
 def check(ctx):
